@@ -243,6 +243,7 @@ func (w *Worker) call(st *State, fv *FuncV, args []Value, depth int, site string
 	}
 	base := st.nextID
 	basePC := len(st.pc)
+	mark := len(st.dirty)
 	var outs []Outcome
 	work := []*frame{f}
 	for len(work) > 0 {
@@ -251,7 +252,7 @@ func (w *Worker) call(st *State, fv *FuncV, args []Value, depth int, site string
 		w.run(cur, &work, &outs)
 	}
 	if len(outs) > 1 && !w.noMerge && !w.eng.isHarnessFn(fn) {
-		outs = w.mergeOutcomes(outs, base, basePC)
+		outs = w.mergeOutcomes(outs, base, basePC, mark)
 	}
 	return outs
 }
